@@ -1652,7 +1652,11 @@ def _predict_blocked_scheme(case):
     tmpl = dict((k, m) for k, m in v.get("messages", [])).get("blocked_scheme", "%(label)s is not a valid URL.")
     if not isinstance(tmpl, str):
         return None
-    text = tmpl.replace("%(label)s", str(case["view"].get("label")))
+    view = case["view"]
+    text = tmpl
+    # the placeholders the generated message texts use are attributes of the element: label, name, u, value
+    for key in ("label", "name", "u", "value"):
+        text = text.replace("%%(%s)s" % key, str(view.get(key)))
     return pre if (tmpl == "" or text in pre) else pre + [text]
 
 
@@ -2058,7 +2062,15 @@ class C15(Property):
                                                                            {"name": "b", "type": "Integer", "set": "01"}]}})
         out.append({"v": {"cls": "SetWithAllFields"}, "build": {"kind": "Dict", "name": "d", "fields": ["a"],
                                                                "raw": {"t": "dict", "pairs": [["a", "x"], [{"int": 1}, "x"], ["1", "y"]]}}})
-        return [finish(c) for c in out]
+        extra = []
+        try:
+            import json as _json, os as _os
+            _p = _os.path.join(_os.path.dirname(__file__), 'c15_corpus.json')
+            if _os.path.exists(_p):
+                extra = _json.load(open(_p))
+        except Exception:
+            extra = []
+        return extra + [finish(c) for c in out]
 
     def exhaustive(self, tier):
         for c in boundary_scalar_cases():
